@@ -135,3 +135,13 @@ func (w *worker) checkSites(e, t string) {
 	w.counts["implicit_conversion_sites_compared"] += nSites
 	w.sig("sites", t, valueClass(constantOf(g)))
 }
+
+// constantOfK returns the value of the constant k of a sequence program.
+func constantOfK(g *gotypes.Result) constant.Value {
+	for id, obj := range g.Info.Defs {
+		if c, ok := obj.(*types.Const); ok && id.Name == "k" {
+			return c.Val()
+		}
+	}
+	return constant.MakeUnknown()
+}
